@@ -473,7 +473,8 @@ def fake_codec_part(ctx):
             rep = {"harness": "h_c15 (BUFSZ=%d%s)" % (bufsz, ", unmodified files" if real else ", constant rewritten"),
                    "line": s["line"] if len(s["line"]) < 20000 else s["line"][:20000] + "...", "impl": i[:2000], "model": m[:2000],
                    "desc": {"segments": [tok(x) for x in s.get("segments", [])], "tail": tok(s.get("tail", b"")),
-                            "class": s.get("class"), "expect": tok(s.get("expect", b""))}}
+                            "class": s.get("class"), "expect": tok(s.get("expect", b"")),
+                            "afail": s.get("afail"), "ffail": s.get("ffail"), "fail": s.get("fail")}}
             if bad:
                 stats["spec_failures"] += 1
                 if stats["spec_failures"] <= 5:
@@ -757,8 +758,11 @@ def real_codec_part(ctx, real_b):
                 stream += rng.randbytes(rng.randint(1, 9)); cls = "garbage"
             if cls != "valid":
                 exp = ref_decompress_all(T, codec, stream)
+                lenient = zstd_paths_disagree(T, stream) if (exp is None and codec == "zstd") else None
                 if exp is not None:
                     cls, content = "valid", exp          # the damage is not one (cut at a member boundary, flip in an unchecked field)
+                elif lenient is not None:
+                    cls, content = "either", lenient     # only one of libzstd's two decoding paths notices the damage
                 else:
                     content = full if cls == "cut" else None
             if kind == "ristream":
@@ -817,6 +821,9 @@ def real_codec_part(ctx, real_b):
                         bad = "no-error-on-valid-input"
                     elif untok(f[1]) != x["content"] or f[2] != "1":
                         bad = "delivered = content, then end-of-stream"
+                elif x["class"] == "either":
+                    if f[0] == "ok" and (untok(f[1]) != x["content"] or f[2] != "1"):
+                        bad = "error, or what libzstd's block-by-block path expands the stream to"
                 else:
                     if f[0] == "ok":
                         bad = "%s-is-error (run ended ok, eof=%s)" % (x["class"], f[2])
@@ -1064,7 +1071,7 @@ class Tools:
         """libzstd reference coder; decoding: None = the stream is rejected (exit 1/2); any other failure is a failure of the check"""
         args = [str(self.zref), mode] + ([str(level)] if level is not None else []) + ([str(wlog)] if wlog is not None else [])
         r = subprocess.run(args, input=data, capture_output=True, env=self.env, timeout=300)
-        if mode == "d":
+        if mode in ("d", "d1"):
             if r.returncode in (1, 2):
                 return None
             need(r.returncode == 0, "reference zstd decoder failed with exit code %s: %s" % (r.returncode, r.stderr[-200:]))
@@ -1168,6 +1175,16 @@ def ref_decompress_all(T, codec, data):
         return T.zstd("d", data)
     except Exception:
         return None
+
+
+def zstd_paths_disagree(T, data):
+    """libzstd has two decoding paths (one pass when the whole frame and enough room are there, block by block otherwise) whose
+    checks differ in some versions (1.5.4: a Frame_Content_Size larger than the content is noticed by the first only).  Returns the
+    expansion by the lenient path if the strict reference rejects `data` but the block-by-block path accepts it, else None: such a
+    stream is damage the library cannot see on one of its paths, and either verdict of the code under test is taken."""
+    if T.zstd("d", data) is not None:
+        return None
+    return T.zstd("d1", data)
 
 
 def tool_part(ctx, bufsz):
@@ -1285,6 +1302,10 @@ def tool_part(ctx, bufsz):
         if oracle == "reference":
             exp = ref_decompress_all(T, codec, data)
             ref = ("rejects",) if exp is None else T.pack(exp, "ref")
+            if exp is None and codec == "zstd":
+                lenient = zstd_paths_disagree(T, data)
+                if lenient is not None:
+                    ref = ("either", T.pack(lenient, "ref"))
         return res, ref
 
     with ThreadPoolExecutor(max_workers=JOBS) as ex:
@@ -1325,7 +1346,11 @@ def tool_part(ctx, bufsz):
         elif oracle == "error-or-same" and not (same or clean_err):
             key, what = "truncated-accepted:%s" % codec, "tar2sqfs exits 0 with a shorter image on a truncated %s stream (%s)" % (codec, desc)
         elif oracle == "reference":
-            if ref == ("rejects",):
+            if ref[0] == "either":
+                results["zstd_library_paths_disagree"] = results.get("zstd_library_paths_disagree", 0) + 1
+                if not (clean_err or res[:2] == ref[1][:2]):
+                    key, what = "corrupt-accepted:%s" % codec, "tar2sqfs on a %s stream only libzstd's block-by-block path accepts (%s) gives neither an error nor the image of that path's expansion" % (codec, desc)
+            elif ref == ("rejects",):
                 if not (same or clean_err):
                     key, what = "corrupt-accepted:%s" % codec, "tar2sqfs exits 0 with another image on a %s stream the reference decompressor rejects (%s)" % (codec, desc)
             elif ref[0] in ("ok", "fail") and res[0] in ("ok", "fail"):
@@ -1449,7 +1474,8 @@ def replay(ctx, path):
         model = ctx.driver(["c15"], line + "\n")
         d = rp.get("desc", {})
         s = {"kind": line.split()[0], "line": line, "segments": [untok(x) for x in d.get("segments", [])], "tail": untok(d.get("tail", "-")),
-             "class": d.get("class"), "expect": untok(d.get("expect", "-"))}
+             "class": d.get("class"), "expect": untok(d.get("expect", "-")),
+             "afail": d.get("afail"), "ffail": d.get("ffail"), "fail": d.get("fail")}
         bad = spec_verdict(s, impl[0])
         print("impl :", impl[0][:500]); print("model:", model[0][:500]); print("clauses violated:", bad)
         return 1 if bad or impl[0] != model[0] else 0
